@@ -22,7 +22,7 @@ RULE = (
     'evaluating the graph by level / value / complement attributes gives '
     'the table; dump(.dot, roots): the text is read by an independent '
     'reader of the emitted DOT subset, its BDD nodes (labels var-id) == '
-    'reachable set, evaluation under the documented legend (solid = then, '
+    'reachable set, every node in the rank labelled with its level, evaluation under the documented legend (solid = then, '
     'dashed = else, -1 = complement, ref layer = roots with their sign) '
     'gives the table. Non-trivial: function depends on >= 2 variables; '
     'distinct = (view, order, function / root set).')
@@ -120,6 +120,33 @@ def eval_nx(g, root, bdd, nm, n):
 NODE_RE = re.compile(r'^\s*("?[^\s"]+"?) \[(.*)\];\s*$')
 EDGE_RE = re.compile(r'^\s*("?[^\s"]+"?) -> ("?[^\s"]+"?) \[(.*)\];\s*$')
 ATTR_RE = re.compile(r'(\w+)="([^"]*)"')
+
+
+def read_ranks(text):
+    """[(label of the phantom level node, [other node ids])] for every
+    `subgraph { rank = same ... }` block."""
+    ranks = []
+    cur = None
+    for line in text.splitlines():
+        t = line.strip()
+        if t.startswith('subgraph'):
+            cur = dict(label=None, nodes=[])
+            continue
+        if cur is not None and t == '}':
+            ranks.append((cur['label'], cur['nodes']))
+            cur = None
+            continue
+        if cur is None:
+            continue
+        m = NODE_RE.match(line)
+        if m:
+            a = dict(ATTR_RE.findall(m.group(2)))
+            if a.get('shape') == 'none':
+                require(cur['label'] is None, 'dot.two_level_labels')
+                cur['label'] = a.get('label')
+            else:
+                cur['nodes'].append(m.group(1))
+    return ranks
 
 
 def read_dot(text):
@@ -247,6 +274,19 @@ def check_views(b, A, nm, n, roots_t, refs, cwd, tag):
     with open(fname) as fd:
         text = fd.read()
     os.remove(fname)
+    # levels: every BDD node sits in the rank whose label is its level,
+    # external references in the rank labelled `ref`
+    for label, members in read_ranks(text):
+        for u_ in members:
+            if u_.startswith('"ref'):
+                require(label == 'ref', 'dot.reference_in_level_rank',
+                        dict(node=u_, label=label))
+            else:
+                require(label is not None and label.isdigit() and
+                        int(label) == b.succ(int(u_))[0],
+                        'dot.node_in_wrong_level_rank',
+                        dict(node=u_, label=label,
+                             level=b.succ(int(u_))[0]))
     ids, rt = eval_dot(text, nm, n)
     require(ids == want_nodes, 'dot.node_set',
             dict(got=sorted(ids), want=sorted(want_nodes)))
